@@ -1498,3 +1498,129 @@ Proof.
 Qed.
 
 End C11.
+
+(* ------------------------------------------------------------------ history-level statements *)
+Section Hist.
+Variable ln1p : N -> R.
+Hypothesis Hln : forall x, 0 <= ln1p x.
+
+Notation stepR := (@step RF ln1p).
+Notation runR := (@run RF ln1p).
+Notation GT := (@global_trust RF ln1p).
+
+Definition reach (pre : list N) (ops : list (op RF)) : state RF := fst (runR (@init RF pre) ops).
+
+Lemma reach_wf : forall pre ops, wf (reach pre ops).
+Proof. intros. apply wf_run, wf_init. Qed.
+
+Lemma in_nonempty : forall {A} (x : A) l, In x l -> l <> [].
+Proof. intros A x l H E. subst. destruct H. Qed.
+
+Lemma hist_distribution : forall pre ops, Forall decay_ok ops ->
+  forall m, In (OMap m) (snd (runR (@init RF pre) ops)) -> good_map m.
+Proof. intros pre ops Hd m. apply (run_good ln1p Hln); [apply wf_init|assumption]. Qed.
+
+Lemma hist_deterministic : forall pre ops, Forall decay_pos ops ->
+  runR (@init RF pre) (map undecay ops) = runR (@init RF pre) ops.
+Proof. intros. apply (run_undecay ln1p Hln); [apply wf_init|assumption]. Qed.
+
+Lemma hist_query_last : forall pre ops1 d ops2 i,
+  let st := reach pre ops1 in
+  In i (map fst (GT st d)) -> Forall (keeps i) ops2 ->
+  snd (stepR (fst (runR (fst (stepR st (Compute d))) ops2)) (Query i)) = @OVal RF (V (GT st d) i).
+Proof.
+  intros pre ops1 d ops2 i st Hi Hk. rewrite query_answer. cbn [snd]. f_equal.
+  rewrite keeps_answer by assumption. apply compute_then_query; [apply reach_wf|assumption].
+Qed.
+
+Lemma unknown_score_R : @of_Q RF TRUST_UNKNOWN_SCORE = 0.
+Proof. unfold of_Q, TRUST_UNKNOWN_SCORE. cbn. lra. Qed.
+
+Lemma hist_query_unknown : forall pre ops i, ~ In i pre -> Forall (fun o => ~ mentions i o) ops ->
+  snd (stepR (reach pre ops) (Query i)) = @OVal RF 0.
+Proof.
+  intros pre ops i Hp Hm. rewrite query_answer. cbn [snd]. f_equal. unfold answer.
+  destruct (unknown_run ln1p ops (@init RF pre) i (wf_init pre) (unknown_init pre i Hp) Hm) as [_ [Hc _]].
+  fold (reach pre ops) in Hc. rewrite Hc. apply unknown_score_R.
+Qed.
+
+Definition is_failure (u : supd) : Prop := u = UFailed \/ u = UUnavailable \/ u = UCorrupted \/ u = UProtocol.
+
+Lemma GT_score : forall st d x, wf st -> In x (@keys RF st) -> @node_set RF st <> [] ->
+  V (GT st d) x = score ln1p st d x.
+Proof. intros st d x Hwf Hx Hne. rewrite global_trust_V by assumption. apply memN_In in Hx. rewrite Hx. reflexivity. Qed.
+
+Lemma with_stats_wf : forall st i u, wf st -> wf (with_stats ln1p st i u).
+Proof. intros. unfold with_stats. apply wf_step. assumption. Qed.
+
+Lemma state_success_monotone : forall st x d, wf st -> 0 <= d -> In x (@node_set RF st) ->
+  V (GT st d) x <= V (GT (with_stats ln1p st x UCorrect) d) x.
+Proof.
+  intros st x d Hwf Hd Hx. pose proof (in_nonempty _ _ Hx) as Hne.
+  pose proof (with_stats_node_set ln1p st x UCorrect Hx) as En.
+  destruct (power_congr st (with_stats ln1p st x UCorrect) eq_refl eq_refl En) as [_ Ek].
+  assert (Hk : In x (@keys RF st)) by (apply sf_nk; assumption).
+  rewrite (GT_score st d x Hwf Hk Hne).
+  rewrite (GT_score (with_stats ln1p st x UCorrect) d x (with_stats_wf st x _ Hwf)) by (rewrite ?Ek, ?En; assumption).
+  apply (score_mono ln1p Hln); try assumption; try reflexivity.
+  - intros j Hj. rewrite with_stats_of. destruct (N.eqb_spec x j); [subst; contradiction|reflexivity].
+  - rewrite with_stats_of, N.eqb_refl. apply (factor_mono ln1p); try reflexivity; cbn; lia.
+Qed.
+
+Lemma state_failure_monotone : forall st x u d, wf st -> 0 <= d -> is_failure u -> In x (@node_set RF st) ->
+  V (GT (with_stats ln1p st x u) d) x <= V (GT st d) x.
+Proof.
+  intros st x u d Hwf Hd Hu Hx. pose proof (in_nonempty _ _ Hx) as Hne.
+  pose proof (with_stats_node_set ln1p st x u Hx) as En.
+  destruct (power_congr st (with_stats ln1p st x u) eq_refl eq_refl En) as [_ Ek].
+  assert (Hk : In x (@keys RF st)) by (apply sf_nk; assumption).
+  rewrite (GT_score st d x Hwf Hk Hne).
+  rewrite (GT_score (with_stats ln1p st x u) d x (with_stats_wf st x _ Hwf)) by (rewrite ?Ek, ?En; assumption).
+  apply (score_mono ln1p Hln); try assumption; try reflexivity.
+  - rewrite En. assumption.
+  - symmetry. assumption.
+  - intros j Hj. rewrite with_stats_of. destruct (N.eqb_spec x j); [subst; contradiction|reflexivity].
+  - rewrite with_stats_of, N.eqb_refl.
+    destruct Hu as [ -> | [ -> | [ -> | -> ] ] ]; apply (factor_mono ln1p); try reflexivity; cbn; lia.
+  - rewrite Ek. assumption.
+Qed.
+
+(* a heavier penalty never costs less *)
+Lemma state_penalty_order : forall st x u u' d, wf st -> 0 <= d ->
+  (u = UCorrupted \/ u = UProtocol) -> (u' = UFailed \/ u' = UUnavailable) ->
+  V (GT (with_stats ln1p st x u) d) x <= V (GT (with_stats ln1p st x u') d) x.
+Proof.
+  intros st x u u' d Hwf Hd Hu Hu'.
+  set (st1 := with_stats ln1p st x u). set (st2 := with_stats ln1p st x u').
+  assert (H1 : In x (@node_set RF st1)) by apply with_stats_In.
+  assert (H2 : In x (@node_set RF st2)) by apply with_stats_In.
+  pose proof (with_stats_node_set2 ln1p st x u' u) as En. fold st1 st2 in En.
+  destruct (power_congr st1 st2 eq_refl eq_refl En) as [_ Ek].
+  assert (Hk : In x (@keys RF st1)) by (apply sf_nk; assumption).
+  rewrite (GT_score st1 d x (with_stats_wf st x _ Hwf) Hk (in_nonempty _ _ H1)).
+  rewrite (GT_score st2 d x (with_stats_wf st x _ Hwf)) by (rewrite ?Ek; try assumption; apply (in_nonempty _ _ H2)).
+  apply (score_mono ln1p Hln); try assumption; try reflexivity.
+  - apply (in_nonempty _ _ H1).
+  - intros j Hj. unfold st1, st2. rewrite !with_stats_of. destruct (N.eqb_spec x j); [subst; contradiction|reflexivity].
+  - unfold st1, st2. rewrite !with_stats_of, N.eqb_refl.
+    destruct Hu as [ -> | -> ]; destruct Hu' as [ -> | -> ]; apply (factor_mono ln1p); try reflexivity; cbn;
+      unfold TRUST_W_FAILED, TRUST_W_UNAVAILABLE, TRUST_W_CORRUPTED, TRUST_W_PROTOCOL; lia.
+Qed.
+
+(* a peer nobody has mentioned has no score before the report and a non-negative one after *)
+Lemma state_new_peer : forall st x u d, wf st -> 0 <= d -> ~ In x (@keys RF st) ->
+  V (GT st d) x = 0 /\ 0 <= V (GT (with_stats ln1p st x u) d) x.
+Proof.
+  intros st x u d Hwf Hd Hx. split.
+  - destruct (list_eq_dec N.eq_dec (@node_set RF st) []) as [E|Hne].
+    + unfold global_trust. rewrite E. reflexivity.
+    + rewrite global_trust_V by assumption. apply memN_false in Hx. rewrite Hx. reflexivity.
+  - pose proof (with_stats_In ln1p st x u) as Hin.
+    pose proof (global_trust_good ln1p Hln (with_stats ln1p st x u) d (with_stats_wf st x u Hwf) Hd) as [Hg _].
+    rewrite global_trust_V by (try apply with_stats_wf; try assumption; apply (in_nonempty _ _ Hin)).
+    destruct (memN x (@keys RF (with_stats ln1p st x u))) eqn:E; [|lra].
+    destruct (scores_dist ln1p Hln (with_stats ln1p st x u) d (with_stats_wf st x u Hwf) (in_nonempty _ _ Hin) Hd) as [A _].
+    apply A. apply memN_In. assumption.
+Qed.
+
+End Hist.
